@@ -68,6 +68,8 @@ inductive Field where
   | lpMap (s : String)
   /-- `if x != nil { <write> }` -/
   | opt (c : String) (f : Field)
+  /-- `hashx.WriteString(h, "literal")`: a constant, the domain tag of the key function -/
+  | tag (b : Bytes)
   deriving DecidableEq, Repr
 
 def flat (l : List Bytes) : Bytes := l.flatten
@@ -82,6 +84,7 @@ def encField (env : Env) : Field → Bytes
   | .mapRaw s => flat ((env.map s).map fun kv => kv.1 ++ kv.2)
   | .lpMap s => le64 (env.map s).length ++ flat ((sortKV (env.map s)).map fun kv => lpB kv.1 ++ lpB kv.2)
   | .opt c f => if env.has c then encField env f else []
+  | .tag b => lpB b
 
 /-- the byte string fed into the hash -/
 def encode (fs : List Field) (env : Env) : Bytes := flat (fs.map (encField env))
@@ -98,6 +101,7 @@ inductive Dep where
   | list (s : String)
   | kvs (s : String)
   | opt (c : String) (d : Dep)
+  | const (b : Bytes)
   deriving DecidableEq, Repr
 
 inductive View where
@@ -115,6 +119,7 @@ def Dep.view (env : Env) : Dep → View
   | .list s => .list (env.lst s)
   | .kvs s => .kvs (sortKV (env.map s))
   | .opt c d => if env.has c then d.view env else .absent
+  | .const b => .bytes b
 
 def Field.dep : Field → Dep
   | .raw s | .fixed _ s | .lp s => .bytes s
@@ -122,12 +127,13 @@ def Field.dep : Field → Dep
   | .joined _ s | .lpList s => .list s
   | .mapRaw s | .lpMap s => .kvs s
   | .opt c f => .opt c f.dep
+  | .tag b => .const b
 
 /-! ## Decidable side conditions on a field list -/
 
 /-- the field can be split off the front of the stream whatever follows -/
 def Field.selfDelim : Field → Bool
-  | .fixed _ _ | .u64 _ | .lp _ | .lpList _ | .lpMap _ => true
+  | .fixed _ _ | .u64 _ | .lp _ | .lpList _ | .lpMap _ | .tag _ => true
   | _ => false
 
 /-- admissible as the very last write: a single value, or an optional value whose encoding is never empty -/
@@ -164,6 +170,7 @@ def Field.wt (env : Env) : Field → Bool
   | .lpList s => (env.lst s).length < limit && (env.lst s).all fun b => b.length < limit
   | .lpMap s => (env.map s).length < limit && (env.map s).all fun kv => kv.1.length < limit && kv.2.length < limit
   | .opt c f => !env.has c || f.wt env
+  | .tag b => b.length < limit
   | _ => true
 
 def wt (fs : List Field) (env : Env) : Bool := fs.all (Field.wt env)
